@@ -47,6 +47,12 @@ func (rl *RangeLoop) RequireKey() bool {
 
 // SetKey saves key to the context.
 func (rl *RangeLoop) SetKey(val any, ins inspector.Inspector) {
+	if p, ok := val.(*[]byte); ok {
+		// The key lives in the buffer of this RL object, the next loop that takes the object overwrites it:
+		// the variable must keep own copy.
+		rl.ctx.SetBytes(byteconv.B2S(rl.node.loopKey), *p)
+		return
+	}
 	rl.ctx.Set(byteconv.B2S(rl.node.loopKey), val, ins)
 }
 
